@@ -11,9 +11,10 @@ CONSTANTS
   VALS = {}
   NEST = FALSE
   PAIRS = TRUE
+  INTF = {}
   PATLEN = 0
   INLEN = 2
   ELEMKINDS = {}
   INKINDS = {"1", "k", "7", "l0", "l2", "d"}
-INVARIANTS InDomain SynErrSilent GlobalsSuffixed HEmit
+INVARIANTS InDomain SynErrSilent GlobalsSuffixed IntfConsistent HEmit
 CHECK_DEADLOCK FALSE
